@@ -175,6 +175,25 @@ static void gf2s(void)
 	}
 }
 
+/* multiplication-type functions at longer operands (the Karatsuba recursions of zz / pp change shape with the parity of
+   every level): result buffers of exactly the documented length (n + m, 2n words), stacks of exactly X_deep() */
+static void mulBig(size_t n, size_t m)
+{
+	word* a = ww(n); word* b = ww(m); word* mod = ww(n); word* x = ww(n); word* y = ww(n);
+	mod[0] |= 1; mod[n - 1] |= (word)1 << (B_PER_W - 1);
+	{ word* c = ww(n + m); CALL("zzMul", n, m, zzMul_deep(n, m), zzMul(c, a, n, b, m, s)); free(c); }
+	{ word* c = ww(n + m); CALL("ppMul", n, m, ppMul_deep(n, m), ppMul(c, a, n, b, m, s)); free(c); }
+	if (n == m)
+	{
+		void* t = st(zzMod_deep(n, n)); zzMod(x, a, n, mod, n, t); zzMod(y, b, n, mod, n, t); free(t);
+		{ word* c = ww(2 * n); CALL("zzSqr", n, 0, zzSqr_deep(n), zzSqr(c, a, n, s)); free(c); }
+		{ word* c = ww(2 * n); CALL("ppSqr", n, 0, ppSqr_deep(n), ppSqr(c, a, n, s)); free(c); }
+		{ word* c = ww(n); CALL("zzMulMod", n, 0, zzMulMod_deep(n), zzMulMod(c, x, y, mod, n, s)); free(c); }
+		{ word* c = ww(n); x[n - 1] &= WORD_MAX >> 1; y[n - 1] &= WORD_MAX >> 1; CALL("ppMulMod", n, 0, ppMulMod_deep(n), ppMulMod(c, x, y, mod, n, s)); free(c); }
+	}
+	free(a); free(b); free(mod); free(x); free(y);
+}
+
 int main(int argc, char** argv)
 {
 	size_t n, m, top = (argc > 2 && strcmp(argv[2], "thorough") == 0) ? 21 : 10;
@@ -184,6 +203,11 @@ int main(int argc, char** argv)
 		zzAll(n, n); ppAll(n, n);
 		for (m = 1; m <= top; m += (n % 3) + 1) if (m != n) { zzAll(n, m); ppAll(n, m); }
 		if (n <= 8) priAll(n);
+	}
+	for (n = 9; n <= (top > 10 ? 53u : 33u); ++n)
+	{
+		mulBig(n, n);
+		if (n > 9) { mulBig(n, n - 1); mulBig(n - 1, n); mulBig(n + 2, n); mulBig(n, 2 * n + 1); }
 	}
 	for (n = 1; n <= 9 * O_PER_W; n += (n < 2 * O_PER_W ? 1 : 5)) rings(n);
 	gf2s();
